@@ -159,9 +159,9 @@ def drive(ctx, strategy, body, max_examples, salt=0, max_rounds=4, label=""):
 
         def test(case):
             if "t_fail" in holder and time.time() - holder["t_fail"] > budget:
-                # shrink budget used up: only the best failing case found so far still
-                # executes (it must keep failing for the final replay); the rest is skipped
-                if digest(case) != holder["best"]:
+                # shrink budget used up: only cases already seen failing still execute (they
+                # must keep failing for Hypothesis' final replay); the rest is skipped
+                if digest(case) not in holder["failing"]:
                     return
             try:
                 f = body(case)
@@ -178,7 +178,7 @@ def drive(ctx, strategy, body, max_examples, salt=0, max_rounds=4, label=""):
                 return
             holder["last"] = (f, case)
             holder.setdefault("t_fail", time.time())
-            holder["best"] = digest(case)
+            holder.setdefault("failing", set()).add(digest(case))
             raise _Found(f.sig)
 
         st = settings(
